@@ -195,6 +195,12 @@ def worker(args):
         elif r < 0.92:
             base = vocab.valid_string(t, rng) if rng.random() < 0.6 else gen.mutate_string(vocab.valid_string(t, rng), rng, vocab, lits)[0]
             s, cls = gen.uri_prefix(base, t.name, rng, model)
+        elif r < 0.94:
+            # any string: also one with a query tail (its typing is C04's subject - here it must simply not fail)
+            base = vocab.valid_string(t, rng) if rng.random() < 0.7 else gen.mutate_string(vocab.valid_string(t, rng), rng, vocab, lits)[0]
+            s = base + "?" + rng.choice(["foo=bar", "a=b&c=d", "%s=zz" % t.keys[-1], "%s=*" % t.keys[0], "x", "=", "&", "foo={bar}", "a=b?c=d",
+                                         "&".join("k%d=v" % i for i in range(12)), "%s=~x" % t.keys[-1], "foo=bar/baz"])
+            cls = "with_query_tail"
         elif r < 0.96:
             k = rng.randint(0, 12)
             s, cls = "/".join(rng.choice(gen.NAME_POOL + gen.JUNK_SEGMENTS + lits) for _ in range(k)), "random_segments"
